@@ -149,6 +149,26 @@ def c16b(ctx):
                 pinned_moves = [m for m in mv if any(x.kind == "agg" and x.site.node["rv"].get("vname") == "Pinned" for x in df.origins_of_operand(b, m.node["args"][2]))]
                 if fn == "Policy::on_write" and not pinned_moves:
                     ctx.fail(o, cb, "an unconfirmed victim in %s is not moved to the Pinned region" % fn)
+    # Policy::unpin: an un-pinned key must not stay in the Pinned region: it either goes back to probation or is dropped
+    # (storage-confirmed) or stays pinned because the storage refused — it is never left where nothing evicts it
+    ub = ctx.touch(prog.body("Policy::unpin"))
+    mv = ub.calls_to(r"Lru::<K>::move_key_to_head_of_region$")
+    rm = ub.calls_to(r"Lru::<K>::remove$")
+    chk = ub.calls_to(r"Lru::<K>::check_is_in_region$")
+    total += len(mv)
+    if len(mv) != 1 or len(chk) != 1 or not rm:
+        ctx.fail(o, Site(ub, 0, 0), "anchor missing in Policy::unpin (move_key_to_head_of_region=%d, check_is_in_region=%d, lru.remove=%d)" % (len(mv), len(chk), len(rm)))
+    else:
+        cbs_u = ub.calls_to(r"core::ops::function::Fn::call$")
+        # every path from `the key is in the Pinned region` to the return passes a move out of Pinned, a removal, or a refused removal
+        sw = chk[0].node["t"]
+        if sw is not None and ub.blocks[sw]["term"]["k"] == "switch":
+            tt, ft = df.bool_edges(ub, sw)
+            if df.switch_cond(ub, sw).negated:
+                tt, ft = ft, tt
+            bad = ub.must_pass([tt], [mv[0].bb] + [r_.bb for r_ in rm] + [c_.bb for c_ in cbs_u[-1:]])
+            if bad:
+                ctx.fail(o, mv[0], "Policy::unpin can return with the un-pinned key still parked in the Pinned region: nothing ever evicts it")
     o.sites = total
     if total < 5:
         ctx.fail(o, "(program)", "expected >= 5 eviction decision sites across the policy, found %d" % total)
